@@ -69,6 +69,8 @@ pub fn inputs(seed: u64, tier: Tier) -> Vec<In> {
             vec![c3(vec![Sym::L(0x61); 300])],
             vec![c3(vec![Sym::L(1), Sym::L(2), Sym::L(3), Sym::M(2, 3), Sym::L(4)]), Chunk::U { reset: false, data: vec![7, 8, 9] }],
             vec![Chunk::U { reset: true, data: b"abcdefgh".to_vec() }, Chunk::C { class: 2, props: (1, 3, 4), prog: vec![Sym::M(8, 5), Sym::L(1), Sym::S, Sym::R(0, 3)] }, Chunk::U { reset: false, data: vec![1] }],
+            // (earlier chunks have produced output when a later chunk - with and without a dictionary reset - is refused)
+            vec![Chunk::U { reset: true, data: b"ijklmnop".to_vec() }, c3(vec![Sym::L(5), Sym::L(6), Sym::M(1, 4)]), Chunk::C { class: 2, props: (0, 0, 0), prog: vec![Sym::M(2, 3), Sym::L(9)] }],
         ];
         for cs in &bases {
             let w = lzma2::write(cs);
@@ -91,6 +93,14 @@ pub fn inputs(seed: u64, tier: Tier) -> Vec<In> {
                     let mut m = w.bytes.clone();
                     m[l.body_off + l.body_len - 1] ^= x;
                     muts.push((format!("last payload byte ^= {:#04x}", x), m));
+                }
+                // illegal properties byte (what has been delivered to the sink by then must not depend on the reader either)
+                if let Some(po) = l.props_off {
+                    for v in [225u8, 255, 4 * 9 + 8 /* lc 8, lp 4 */, 45 /* lc 0, lp 5 */] {
+                        let mut m = w.bytes.clone();
+                        m[po] = v;
+                        muts.push((format!("properties byte := {}", v), m));
+                    }
                 }
                 // spare byte inside the declared compressed size
                 {
